@@ -70,6 +70,10 @@ type PipeIn struct {
 	Sources []Source   `json:"sources"`
 	Extract []KPiece   `json:"extract_tmpl"`
 	Ignore  [][]KPiece `json:"ignore_tmpl"`
+	// ProjectLines > 0 (one file source, C02 only): the pipeline runs on the whole stream and every match is held to
+	// the end, but only the first ProjectLines lines and their matches are handed to Coq (a projection of the
+	// observation: what is compared is still the true source, number, text, groups and held values of those lines)
+	ProjectLines int `json:"project_lines,omitempty"`
 }
 
 func zlist(ix []int) string {
@@ -165,7 +169,32 @@ func MakeCase(in PipeIn, workdir string, caseNo int) Case {
 	Prepare(&in)
 	dir := filepath.Join(workdir, fmt.Sprintf("pipe%06d", caseNo))
 	res := runIn(in, dir)
+	full := in
+	if in.ProjectLines > 0 && in.Cfg.Mode != "reader" && len(in.Sources) == 1 && res.Completed {
+		stream, _ := hex.DecodeString(in.Sources[0].Stream)
+		cut, n := len(stream), 0
+		for i, c := range stream {
+			if c == '\n' {
+				n++
+				if n == in.ProjectLines {
+					cut = i + 1
+					break
+				}
+			}
+		}
+		in.Sources = []Source{in.Sources[0]}
+		in.Sources[0].Stream = hex.EncodeToString(stream[:cut])
+		var keep []MatchObs
+		for _, m := range res.Matches {
+			if int(m.LineNo) <= in.ProjectLines {
+				keep = append(keep, m)
+			}
+		}
+		res.Matches = keep
+		res.Cli = nil
+	}
 	inCoq, total := InputCoq(in, dir, &res)
+	in = full
 
 	var sorted, order []string
 	fullName := func(m MatchObs) string {
@@ -453,6 +482,14 @@ func GenC01(r *Rng, n int, tier string) []PipeIn {
 			return append(bytes.Repeat([]byte{c}, 126), ':', '\n')
 		})
 	}
+	if len(ins) > 5 {
+		// one line of 2.3 MiB (18 read buffers) between short ones: still one line, and the lines after it keep their numbers
+		huge := append([]byte("first:\nk:"), bytes.Repeat([]byte("a"), 2300000)...)
+		huge = append(huge, []byte("\nafter:\nlast:")...)
+		ins[3] = PipeIn{Cfg: Config{Mode: "files", Batch: 1000, Workers: 2, Readers: 1, Buffer: 1, Matcher: "colon", DelaySeed: 13},
+			Extract: []KPiece{{Kind: "line"}, {Kind: "lit", Text: "="}, {Kind: "group", Idx: 1}},
+			Sources: []Source{{Name: "huge.log", Stream: hex.EncodeToString(huge)}}}
+	}
 	if len(ins) > 2 {
 		st := []byte("a:\nb:\nc:\nd:\ne")
 		ins[1] = PipeIn{Cfg: Config{Mode: "reader", Batch: 1000, Workers: 2, Readers: 1, Buffer: 1, Matcher: "colon", DelaySeed: 9},
@@ -542,6 +579,14 @@ func GenC02(r *Rng, n int, tier string) []PipeIn {
 		}
 		ins = append(ins, in)
 	}
+	if len(ins) > 6 {
+		// one line of 1.2 MiB between short ones: its text, number and groups, and the numbers of the lines after it
+		long := append([]byte("a=1\nkey=12 "), bytes.Repeat([]byte("z"), 1200000)...)
+		long = append(long, []byte("\nb=2\nc=3")...)
+		ins[5] = PipeIn{Cfg: Config{Mode: "files", Batch: 1000, Workers: 2, Readers: 1, Buffer: 1, Matcher: "re:" + c02Regexes[0], DelaySeed: 17, HoldAll: true, Cli: true},
+			Extract: []KPiece{{Kind: "src"}, {Kind: "lit", Text: "|"}, {Kind: "line"}, {Kind: "lit", Text: "|"}, {Kind: "group", Idx: 1}, {Kind: "lit", Text: "|"}, {Kind: "group", Idx: 2}},
+			Sources: []Source{{Name: "long.txt", Stream: hex.EncodeToString(long)}}}
+	}
 	if len(ins) > 2 {
 		ins[1] = alignedCase("re:"+c02Regexes[0], []KPiece{{Kind: "line"}, {Kind: "lit", Text: "|"}, {Kind: "group", Idx: 1}, {Kind: "lit", Text: "|"}, {Kind: "group", Idx: 2}}, func(c byte) []byte {
 			return append(bytes.Repeat([]byte{c}, 120), []byte("=123456\n")...)
@@ -556,6 +601,15 @@ func GenC02(r *Rng, n int, tier string) []PipeIn {
 		ins[2] = PipeIn{Cfg: Config{Mode: "files", Batch: 5, Workers: 8, Readers: 1, Buffer: 4, Matcher: "dissect:%{a} %{b}", DelaySeed: 5, HoldAll: true},
 			Extract: []KPiece{{Kind: "name", Text: "a"}, {Kind: "lit", Text: "|"}, {Kind: "group", Idx: 2}},
 			Sources: []Source{{Name: "many.log", Stream: hex.EncodeToString(b)}}}
+	}
+	if len(ins) > 8 { // one worker producing more than 5 x 1024 dissect results, every match held until the end (pooled index blocks must never be reused)
+		var b []byte
+		for i := 0; i < 5300; i++ {
+			b = append(b, []byte(fmt.Sprintf("%d %d\n", i%10, i))...)
+		}
+		ins[7] = PipeIn{ProjectLines: 300, Cfg: Config{Mode: "files", Batch: 1000, Workers: 1, Readers: 1, Buffer: 1, Matcher: "dissect:%{a} %{b}", DelaySeed: 19, HoldAll: true},
+			Extract: []KPiece{{Kind: "group", Idx: 2}},
+			Sources: []Source{{Name: "held.log", Stream: hex.EncodeToString(b)}}}
 	}
 	if len(ins) > 1 { // time-flush path: line numbers across timer-forced batches
 		st := []byte("k=1\nq=\nzz=22\nw=3\nlast=9")
